@@ -206,6 +206,33 @@ impl Check for ManagerExactlyOnce {
     type Case = ManagerCase;
     const NAME: &'static str = "manager_exactly_once";
 
+    fn normalise(mut case: ManagerCase) -> ManagerCase {
+        case.defs = crate::props::world::normalise_defs(case.defs, true);
+        if case.defs.len() < 2 {
+            case.defs = vec![
+                InstrumentDef { exchange: 0, base: 0, quote: 2, kind: crate::props::world::KindDef::Spot, unit: crate::props::world::UnitDef::NoSpec },
+                InstrumentDef { exchange: 1, base: 1, quote: 2, kind: crate::props::world::KindDef::Spot, unit: crate::props::world::UnitDef::NoSpec },
+            ];
+        }
+        case.timeout_ms = 10 + case.timeout_ms % 4991;
+        case.requests.truncate(32);
+        let t = case.timeout_ms;
+        for r in &mut case.requests {
+            r.send_ms %= 3 * t;
+            r.delay_ms = r.delay_ms.map(|d| {
+                let d = d % (2 * t);
+                if d == t { d + 1 } else { d }
+            });
+            if let Resp::Ok { filled } = &mut r.resp {
+                *filled %= 5;
+            }
+        }
+        if case.requests.is_empty() {
+            case.requests.push(ReqScript { open: true, inst_sel: 0, send_ms: 0, delay_ms: Some(1), resp: Resp::Ok { filled: 0 }, retry_of: None });
+        }
+        case
+    }
+
     fn strategy(tier: Tier) -> BoxedStrategy<ManagerCase> {
         let max = match tier {
             Tier::Quick => 16usize,
